@@ -326,6 +326,19 @@ def closedness_problems(record):
     def known(name, local_names):
         return name in local_names or name in g or name in l or hasattr(_builtins, name) or name in top_defs
 
+    # (3) a name of the form <module>_<func>__locals__<Class> is the identifier the generator gives a local class:
+    #     whatever is bound under it must be usable as that class (not the TypeVar it substitutes, not an Annotated
+    #     wrapper around it)
+    import typing as _t
+
+    import typing_extensions as _te
+
+    used_names = {n.id for n in ast.walk(mod) if isinstance(n, ast.Name)}
+    for k_, v_ in g.items():
+        if "__locals__" in k_ and k_ in used_names and not k_.startswith("typing"):
+            if isinstance(v_, _t.TypeVar) or _te.get_origin(v_) in (_t.Annotated, _te.Annotated):
+                problems.append(f"global {k_!r} (the identifier of a local class) is bound to {v_!r}, not to the class")
+
     def check_scope(body_nodes, local_names, where):
         seen_expr = set()
         for stmt in body_nodes:
